@@ -592,6 +592,8 @@ def gen_case(rng, t, cont, nops, profile, exclusive=False):
 
 
 ALPHABET = ["app 0 1", "ins 0 0 2", "inso 0 1 0", "rem 0 0 1", "cp 1 0", "clone 1 0", "apnd 0 1", "drop 0", "rsz 0 2 7"]
+ALPHABET_S = ["app 0 61", "ins 0 0 6120737472696e672074686174206c69766573206f6e207468652068656170", "inso 0 1 0", "rem 0 0 1", "cp 1 0",
+              "clone 1 0", "apnd 0 1", "drop 0", "rsz 0 2 37"]
 
 
 def exhaustive_cases(maxlen, types):
@@ -599,7 +601,7 @@ def exhaustive_cases(maxlen, types):
     for t in types:
         p = t + "a"
         for L in range(1, maxlen + 1):
-            for seq in itertools.product(ALPHABET, repeat=L):
+            for seq in itertools.product(ALPHABET_S if t == "s" else ALPHABET, repeat=L):
                 cases.append([p + " reset", p + " new 0"] + [p + " " + s for s in seq])
     return cases
 
